@@ -92,6 +92,8 @@ THEOREMS = [
     "Verif.C13.fit_indices_established",
     "Verif.C13.parameterNames_sub_globalNames",
     "Verif.C13.M.params_nodup",
+    "Verif.C13.tree_derivative_sound",
+    "Verif.C13.leaf_der_ok",
     "Verif.C13.OF.jac_Lp_hasDerivAt",
     "Verif.C13.OF.jac_Lc_hasDerivAt",
     "Verif.C13.OF.jac_St_hasDerivAt",
@@ -713,6 +715,10 @@ def impl(case):
                     out.append(fl(at(obj.derivative(x, p), pos)))
                 except Exception as e:
                     out.append(errname(e))
+            try:  # the model function itself, through the public `model(x, {name: value})` (tie of M.val)
+                out.append(fl(at(call_model(obj, x, dict(zip(names, p))), pos)))
+            except Exception as e:
+                out.append(errname(e))
             return out
         if k == "fit":
             fit, _ = build_fit(case)
@@ -890,6 +896,7 @@ def ops(case):
         out = [" ".join(["c13.tree", w] + head + tail) for w in ("names", "jac")]
         if has_derivative(case["tree"]):
             out.append(" ".join(["c13.tree", "der"] + head + tail))
+        out.append(" ".join(["c13.tree", "val"] + head + tail))  # LAST: the function M.der / M.jac differentiate (M.val)
         return out
     if k == "fit":
         toks = assoc_tokens(case["values"]) + [str(len(case["models"]))]
@@ -1017,6 +1024,10 @@ def agree(case, i, ia, ma):
                 a, b = parse_floats(ia), parse_floats(ma)
                 pv = pvec(case, list(obj_of(case["tree"]).parameter_names))
                 return len(a) == len(b) and rows_close(a, b, pv, rel)
+            if i == (3 if has_derivative(case["tree"]) else 2):
+                # value of the composition (M.val): the parts' values add up / are shifted; a sum of parts of opposite
+                # sign is compared on the scale of the parts (the largest |leaf value| is not known here: use |x| + |value|)
+                return close(dec(ia), dec(ma), rel, rel * abs(float(case["x"])))
             return close(dec(ia), dec(ma), rel)
         if k == "fit":
             if " | " not in ia or " | " not in ma:
